@@ -34,6 +34,21 @@ theorem release_safe (g : Graph) (ts : List Target) (ops : List Op) (x : Name) (
     exact ⟨fun c => h1 (Or.inl c), fun c => h1 (Or.inr c), fun c => h2 (Or.inl c),
            fun c => h2 (Or.inr c), h3⟩
 
+/-- In terms of the declared dependencies: let `Up a x` be "algorithm `a` is transitively
+    upstream of `x`" and suppose the graph's ancestor sets are complete for it (`C09.ancestry_closure`
+    proves exactly this for the output of `dag.Construct`: `m ∈ ancestry n ↔ TransGen edge m n`).
+    Then no unit is released while any transitive upstream algorithm has its target, or an
+    all-targets run, pending or executing. -/
+theorem release_safe_upstream (g : Graph) (Up : Name → Name → Prop)
+    (hcomplete : ∀ x a, Up a x → a ∈ g.ancestry x)
+    (ts : List Target) (ops : List Op) (x : Name) (t : Target)
+    (h : (x, t) ∈ (dispatch g (run g (St.init ts) ops)).2) (a : Name) (ha : Up a x) :
+    t ∉ ((run g (St.init ts) ops).node a).todo ∧ t ∉ ((run g (St.init ts) ops).node a).doing ∧
+    ALL ∉ ((run g (St.init ts) ops).node a).todo ∧ ALL ∉ ((run g (St.init ts) ops).node a).doing ∧
+    (t = ALL → ((run g (St.init ts) ops).node a).todo = [] ∧
+               ((run g (St.init ts) ops).node a).doing = []) :=
+  release_safe g ts ops x t h a (hcomplete x a ha)
+
 /-- The same holds at the very moment of the release inside the batch: releases made earlier
     in the same batch do not make an ancestor look idle (they only move `todo → doing`). -/
 theorem release_safe_within_batch (g : Graph) (s : St) (hq : QueCovers s) (x : Name) (t : Target)
